@@ -92,6 +92,11 @@ func (ledger *SimpleLedger[T]) Get(key LedgerKey) (T, xerrors.XError) {
 func (ledger *SimpleLedger[T]) get(key LedgerKey) (T, xerrors.XError) {
 	var emptyNil T
 
+	// an item that is set again after it was removed (re-created) is visible again
+	if item, ok := ledger.cachedItems.getUpdatedItem(key); ok {
+		return item, nil
+	}
+
 	// if the item is already removed, return xerrors.ErrNotFoundResult
 	if ledger.cachedItems.isRemovedKey(key) {
 		return emptyNil, xerrors.ErrNotFoundResult
